@@ -468,7 +468,13 @@ class access:
                 # This tends to stop modal explosion better than the max worlds check,
                 # at least in its current form (all modal operators + worlds + 1).
                 if entry.rule == self and entry.target.branch == branch:
-                    return False
+                    # Apply again only for a world that carries a sentence, so
+                    # the successors this rule creates are not chased forever.
+                    has = branch.has
+                    if not any(
+                        has({Node.Key.world: w})
+                        for w in self[UnserialWorlds][branch]):
+                        return False
             # As above, this is unnecessary
             if self[MaxWorlds].is_exceeded(branch):
                 return False
